@@ -4,7 +4,7 @@ import lzma as pylzma
 from . import core
 from .core import crc32, lzma_header, out_repr
 from .run import Run
-from .props import (v, outfield, is_prefix_repr, repr_len, exp_ok_out, exp_err, no_crash, sizes, lzma_file,
+from .props import (reader_kind, v, outfield, is_prefix_repr, repr_len, exp_ok_out, exp_err, no_crash, sizes, lzma_file,
                     liblzma_raw2, liblzma_xz, liblzma_alone, lzma2_material, xz_files, parse_lzma2, chunkings,
                     split_by, stream_ops, stream_verdict, spec_check)
 
@@ -66,6 +66,11 @@ def c06(run: Run):
             elif name.endswith(("pad", "hpad")):
                 for j in range(ln):
                     muts.append(data[:off + j] + b"\x01" + data[off + j + 1:])
+                    # … also when the reader hands the padding over in pieces (a seam right after the bad byte,
+                    # small BufReader capacities): the verdict must not depend on the last piece alone
+                    mu2 = core.refresh_crcs(muts[-1], rec, nb)
+                    for rk in ["cut:%d" % (off + j + 1), "buf:%d" % rng.pick([1, 2, 3, 5, 6, 7, 9, 18, 19]), reader_kind(rng, len(mu2), [off, off + j, off + ln])]:
+                        run.add("xz rk=%s in=%s" % (rk, mu2.hex()), oracle=must_reject, tag="c06:field:" + name.split("_", 1)[-1] + ":reader", field=name)
             elif name in ("flags", "ftr_flags"):
                 cur = data[off + 1]
                 for val in range(256):          # every value of the check-type byte (reserved bits included)
@@ -85,6 +90,31 @@ def c06(run: Run):
             for mu in muts:
                 mu2 = core.refresh_crcs(mu, rec, nb)
                 run.add("xz in=%s" % mu2.hex(), oracle=must_reject, tag="c06:field:" + name.split("_", 1)[-1], field=name)
+    # declared block sizes replaced by special values (0 included: a declared size of zero is still a declared
+    # size), and a self-consistent index with fewer / more records than there are blocks
+    def must_reject3(res, meta, peak):
+        return None if v(res) == "err" else "%s but the file was accepted" % meta.get("what")
+    for f in base + [x for x in xz_files(run, 40, lz2) if len(x["blocks"]) >= 2 and len(x["data"]) < 4000][:sizes(run.tier, 3, 20)]:
+        for bi, b0 in enumerate(f["blocks"][:2]):
+            for which, true in (("unpacked", len(b0.out)), ("packed", len(b0.payload))):
+                for val in (0, 1, true + 1, true - 1, 2**21, true + 128):
+                    if val == true or val < 0:
+                        continue
+                    bl = [core.XzBlock(b.payload, b.out, b.decl_packed, b.decl_unpacked, b.extra_pad_words, dict(b.widths),
+                                       b.filter_id, b.flags_extra, b.props) for b in f["blocks"]]
+                    if which == "unpacked":
+                        bl[bi].decl_unpacked, bl[bi].unpacked_override = True, val
+                    else:
+                        bl[bi].decl_packed, bl[bi].packed_override = True, val
+                    run.add("xz rk=%s in=%s" % (rng.pick(["flat", "buf:3", "cur"]), core.build_xz(f["check"], bl).hex()), oracle=must_reject3,
+                            tag="c06:declared-size", what="block %d declares %s size %d, the real one is %d" % (bi, which, val, true))
+        recs = f["rec"]["_records"]
+        for vr, what in ((recs[:-1], "index lists one record fewer than there are blocks"), ([], "index lists no record"),
+                         (recs[1:], "index lacks the first block's record"), (recs + recs[-1:], "index lists one record too many")):
+            if vr == recs:
+                continue
+            run.add("xz in=%s" % core.build_xz(f["check"], f["blocks"], index_records=vr).hex(), oracle=must_reject3,
+                    tag="c06:index-count", what=what)
     # index records that are individually wrong but keep the totals (swap, +k/-k)
     multi = [f for f in xz_files(run, 80, lz2) if len(f["blocks"]) >= 2 and len(f["data"]) < 4000][:sizes(run.tier, 4, 30)]
     for f in multi:
@@ -265,6 +295,15 @@ def c07(run: Run):
         run.add("rawlzma lc=%d lp=%d pb=%d dict=%d us=none ml=none ops=d:%s;d:%s" % (m["lc"], m["lp"], m["pb"], m["dict"], m["payload"].hex(), m["payload"].hex()),
                 oracle=lambda res, meta, peak: "panic/hang in raw decoder: " + res[:80] if ("panic" in res or v(res) in ("hang", "abort", "missing")) else None,
                 tag="c07:raw-twice", release=True)
+    # very many complete units back to back: neither stack depth nor memory may grow with their number
+    unit = core.build_xz(1, [])
+    for cnt in (2, 60000):
+        data = unit * cnt
+        run.add("xz in=%s" % data.hex(), oracle=bound(len(data)), tag="c07:many-streams", release=True)
+    data = (b"\x01\x00\x00A" + b"\x02\x00\x00B" * 8000) + b"\x00"
+    run.add("lzma2 in=%s" % data.hex(), oracle=bound(len(data)), tag="c07:many-chunks", release=True)
+    data = core.build_xz(4, [core.XzBlock(b"\x01\x00\x00A\x00", b"A")] * 3000)
+    run.add("xz in=%s" % data.hex(), oracle=bound(len(data)), tag="c07:many-blocks", release=True)
     # F1/F2 regression witnesses
     f = xzs[0]
     for bs in (0xFFFFFFFF, 0x40000000):
@@ -303,11 +342,16 @@ def c08(run: Run):
         garbage_field = rng.pick([0, L + 3, 2**63, U64MAX - 1])
         run.count("eos" if eos else "noeos")
         # --- a size in effect
-        for n in sorted(set([L, L + 1, max(0, L - 1), 0, 2**62, 2**63, 2**63 + L, U64MAX - 1])):
+        for n in sorted(set([L, L + 1, max(0, L - 1), 0, 2**32, 2**62, 2**63, 2**63 + L, U64MAX - 1, U64MAX])):
             forms = [("hdr", lzma_header(m["lc"], m["lp"], m["pb"], m["dict"], n) + pay, 13),
-                     ("hup:%d" % n, lzma_header(m["lc"], m["lp"], m["pb"], m["dict"], garbage_field) + pay, 13),
+                     ("hup:%d" % n, lzma_header(m["lc"], m["lp"], m["pb"], m["dict"], rng.pick([garbage_field, L, None])) + pay, 13),
                      ("up:%d" % n, hdr5 + pay, 5)]
+            if n == U64MAX:
+                forms = forms[1:]        # in the header field this value means "no size"; supplied by the caller it is a size
             for us, data, hl in forms:
+                # now and then through a reader that hands the header over in pieces
+                if rng.chance(1, 3):
+                    us += " rk=" + rng.pick(["buf:1", "buf:2", "buf:3", "buf:6", "buf:12", "frag:%d:2" % (rng.below(99) + 1), "cut:6,9", "cut:5,13", "cur"])
                 if n == L:
                     def exact(res, meta, peak, out=m["out"], hl=hl, plen=len(pay), eos=eos):
                         msg = exp_ok_out(out)(res, meta, peak)
@@ -338,6 +382,8 @@ def c08(run: Run):
         # --- no size in effect
         nosize_forms = [("hdr", lzma_header(m["lc"], m["lp"], m["pb"], m["dict"], None) + pay),
                         ("hup:none", lzma_header(m["lc"], m["lp"], m["pb"], m["dict"], garbage_field) + pay),
+                        ("hup:none", lzma_header(m["lc"], m["lp"], m["pb"], m["dict"], L) + pay),
+                        ("hup:none rk=%s" % rng.pick(["buf:1", "buf:5", "cut:7", "frag:3:3"]), lzma_header(m["lc"], m["lp"], m["pb"], m["dict"], max(0, L - 1)) + pay),
                         ("up:none", hdr5 + pay)]
         for us, data in nosize_forms:
             if eos:
@@ -415,6 +461,18 @@ def c09(run: Run):
                 return None
             run.add("rawlzma lc=%d lp=%d pb=%d dict=%d us=none ml=none ops=d:%s" % (m["lc"], m["lp"], m["pb"], d, m["payload"].hex()),
                     oracle=raw_err, tag="c09:raw-circ")
+            # the size given to the constructor is not the size in effect after reset(Some(..)): the window
+            # rules do not depend on either
+            def raw_err2(res, meta, peak, out=m["out"]):
+                toks = res.split(" ")
+                if len(toks) < 3 or not toks[2].startswith("err:"):
+                    return "out-of-window copy not rejected after the size was re-specified by reset: %s" % res[:100]
+                if not is_prefix_repr(toks[2].split(":", 2)[2], out):
+                    return "bytes fabricated: sink is not a prefix of the well-formed prefix's output"
+                return None
+            run.add("rawlzma lc=%d lp=%d pb=%d dict=%d us=%d ml=none ops=rs:%s;d:%s" % (
+                m["lc"], m["lp"], m["pb"], d, rng.pick([0, 1, d, max(0, d - 1)]), rng.pick(["none", str(2**40)]), m["payload"].hex()),
+                oracle=raw_err2, tag="c09:raw-resized")
             # the same decoder object reused: a valid stream first (fills the window), reset, then the bad one
             goods = [g for g in good_pool if (g["lc"], g["lp"], g["pb"]) == (m["lc"], m["lp"], m["pb"]) and g["dict"] <= d] or None
             g = rng.pick(goods) if goods else None
@@ -555,6 +613,14 @@ def c10(run: Run):
                     return None
                 run.add("rawlzma lc=%d lp=%d pb=%d dict=%d us=%s ml=%d ops=d:%s" % (m["lc"], m["lp"], m["pb"], d, us, ml, m["payload"].hex()),
                         oracle=roracle, tag="c10:raw")
+                if rng.chance(1, 3):
+                    # constructed for a huge expected size, which reset replaces: the limit is measured against the
+                    # window actually needed
+                    def roracle2(res, meta, peak, f=roracle):
+                        toks = res.split(" ")
+                        return f(" ".join(toks[:1] + toks[2:]), meta, peak)
+                    run.add("rawlzma lc=%d lp=%d pb=%d dict=%d us=%d ml=%d ops=rs:%s;d:%s" % (
+                        m["lc"], m["lp"], m["pb"], d, rng.pick([2**40, 2**63, 5000]), ml, us, m["payload"].hex()), oracle=roracle2, tag="c10:raw-resized")
     # operation level: the buffer never holds more than m bytes
     for i in range(sizes(run.tier, 300, 4000)):
         d = rng.pick([1, 2, 3, 4, 6])
@@ -608,6 +674,13 @@ def c11(run: Run):
                 run.add("lzma us=hdr rk=%s in=%s" % (rk, (data + trail).hex()), oracle=exp_err(), tag="c11:lzma-marker-trailing")
             else:
                 run.add("lzma us=hdr rk=%s in=%s" % (rk, data.hex()), oracle=used_is(len(data), m["out"]), tag="c11:lzma-marker")
+            # the caller says "ignore the header's size, expect a marker" while the header does carry the true
+            # size: the decoder reads through the marker (and refuses what follows it)
+            data2 = lzma_header(m["lc"], m["lp"], m["pb"], m["dict"], rng.pick([len(m["out"]), len(m["out"]), 0, 2**40])) + m["payload"]
+            if trail:
+                run.add("lzma us=hup:none rk=%s in=%s" % (rk, (data2 + trail).hex()), oracle=exp_err(), tag="c11:lzma-marker-trailing:hup")
+            else:
+                run.add("lzma us=hup:none rk=%s in=%s" % (rk, data2.hex()), oracle=used_is(len(data2), m["out"]), tag="c11:lzma-marker:hup")
     # a size in effect on a stream that ALSO carries an end marker: the decoder stops at the size; what it
     # consumed, its verdict and its output must not depend on what follows
     for m in [x for x in mats if x["eos"] and len(x["out"]) > 0][:sizes(run.tier, 20, 150)]:
@@ -662,9 +735,10 @@ def c11(run: Run):
         run.add("lzma2 rk=%s in=%s" % (rk, (m["payload"] + trail).hex()), oracle=used_is(len(m["payload"]), m["out"]),
                 tag="c11:lzma2", nontrivial=len(trail) > 0)
     for f in xz_files(run, sizes(run.tier, 15, 100), lz2):
-        trail = rng.pick([b"\x00", b"\x00" * 4, rng.bytes(rng.below(12) + 1)])
-        rk = rng.pick(rks)
-        run.add("xz rk=%s in=%s" % (rk, (f["data"] + trail).hex()), oracle=exp_err(), tag="c11:xz-trailing")
+        for trail in (rng.pick([b"\x00", b"\x00" * 4, rng.bytes(rng.below(12) + 1)]),
+                      rng.pick([f["data"], b"YZ", rng.bytes(rng.below(20)) + b"YZ", b"\x00" * 4 + f["data"], f["data"][-12:]])):
+            rk = rng.pick(rks)
+            run.add("xz rk=%s in=%s" % (rk, (f["data"] + trail).hex()), oracle=exp_err(), tag="c11:xz-trailing")
 
     def post(run):
         for ids in getattr(run, "trail_groups", []):
@@ -721,6 +795,32 @@ def c12(run: Run):
                     else ("source failed at byte %d of %d but success was reported" % (p, n)) if (v(res) == "ok" and p < meta["need"] + (1 if meta["probes"] else 0))
                     else None if is_prefix_repr(outfield(res), out) else "wrong bytes delivered before the source failure",
                     tag="c12:%s:srcfault" % op, need=len(data), script="", probes=probes_eof)
+    # one-shot source faults: the k-th read call fails once, later calls would succeed again (a decoder that
+    # drops one error keeps going on a misaligned stream); implementation-only oracle, every k, three piece sizes
+    def oneshot_cases(op, args, data, out):
+        def oracle(res, meta, peak, out=out):
+            if v(res) not in ("ok", "err"):
+                return "one-shot source fault: verdict %s" % v(res)
+            fired = core.fields(res).get("rf") == "1"
+            if v(res) == "ok":
+                if fired:
+                    return "read call #%d failed (once) but the decoder reported success" % meta["k"]
+                if outfield(res) != out_repr(out):
+                    return "wrong output"
+            elif not is_prefix_repr(outfield(res), out):
+                return "bytes accepted before the source failure are not a prefix of the correct output"
+            return None
+        for rk, kmax in (("frag:1:1", min(len(data) + 4, 160)), ("frag:5:4", min(len(data) // 2 + 4, 60)), ("flat", 12)):
+            for k in range(1, kmax + 1):
+                run.add("%s %s rk=%s rfail=%d in=%s" % (op, args, rk, k, data.hex()), oracle=oracle, cmp=False,
+                        tag="c12:%s:oneshot-srcfault" % op, k=k, script="")
+    for m in hdr[:sizes(run.tier, 2, 8)] + core.script([dict(kind="lzma", lc=3, lp=0, pb=2, dict=4096, prog=pr) for pr in ("L97", "L97,L98", "L0,L1,L2,L3", "L97,E")]):
+        for us, data in (("hdr", lzma_file(m)), ("hup:%s" % ("none" if m["eos"] else len(m["out"])), lzma_file(m))):
+            oneshot_cases("lzma", "us=" + us, data, m["out"])
+    for m in lz2[:sizes(run.tier, 2, 8)]:
+        oneshot_cases("lzma2", "", m["payload"], m["out"])
+    for f in xzs[:sizes(run.tier, 1, 4)]:
+        oneshot_cases("xz", "", f["data"], f["out"])
     for m in hdr:
         data = lzma_file(m)
         decoder_cases("lzma", "us=hdr", data, m["out"], True, 3, probes_eof=bool(m["eos"]))
@@ -729,6 +829,10 @@ def c12(run: Run):
         pass
     for m in lz2:
         decoder_cases("lzma2", "", m["payload"], m["out"], True, len(parse_lzma2(m["payload"])) + 2)
+    # nothing to deliver is still a success that flushes: the empty LZMA2 stream, empty .lzma streams
+    decoder_cases("lzma2", "", b"\x00", b"", True, 2)
+    for e in core.script([dict(kind="lzma", lc=3, lp=0, pb=2, dict=4096, prog="E"), dict(kind="lzma", lc=0, lp=2, pb=1, dict=4096, prog="")]):
+        decoder_cases("lzma", "us=hdr", lzma_file(e), b"", True, 2, probes_eof=bool(e["eos"]))
     for f in xzs:
         decoder_cases("xz", "", f["data"], f["out"], False, len(f["blocks"]) + 1, probes_eof=True)
     # window level: many flushes (small dictionary), faults at each
@@ -788,6 +892,17 @@ def c12_post(run):
             second.add("enc kind=%s opt=%s full=1 rbad=1 in=%s" % (kind, opt or "hnone", data[:p].hex()),
                        oracle=lambda res, meta, peak, full=full: "source fault swallowed by the encoder" if v(res) == "ok" else
                        ("verdict " + v(res)) if v(res) != "err" else None, tag="c12:enc:srcfault", script="")
+        # one-shot source faults (the k-th read call fails once)
+        for frags in ("", "3", "1,1,1,1,1,1,1,1,1,1,1,1,1,1,1,1,1,1,1,1,1,1,1,1"):
+            # the fault-free output under the same read pattern (the LZMA2 encoder emits one chunk per read)
+            refid = second.add("enc kind=%s opt=%s full=1 frags=%s in=%s" % (kind, opt or "hnone", frags, data.hex()),
+                               oracle=lambda res, meta, peak: None if v(res) == "ok" else "encoder failed", tag="c12:enc:ref-frags")
+            for k in range(1, (len(data) + 3 if frags else 4)):
+                second.add("enc kind=%s opt=%s full=1 frags=%s rfail=%d in=%s" % (kind, opt or "hnone", frags, k, data.hex()), cmp=False,
+                           oracle=lambda res, meta, peak, refid=refid: ("verdict " + v(res)) if v(res) not in ("ok", "err") else
+                           "a read call failed (once) but the encoder reported success" if (v(res) == "ok" and core.fields(res).get("rf") == "1") else
+                           None if outfield(second.impl[refid]).startswith(outfield(res)) else "encoder: bytes accepted before the source failure are not a prefix of the fault-free output",
+                           tag="c12:enc:oneshot-srcfault", script="")
     second.execute()
     run.violations += second.violations
     run.disagreements += second.disagreements
@@ -900,7 +1015,8 @@ def c14(run: Run):
         # payloads followed by bytes that do not belong to them
         pool += [q + rng.pick([b"\x00", b"\x01\x02", rng.bytes(7)]) for q in pool[:3]]
         m0 = rng.pick(valid)
-        us0 = rng.pick(["none", str(len(m0["out"])), "0", "5"])
+        us0 = rng.pick(["none", str(len(m0["out"])), "0", "5", str(2**40)])
+        ml = rng.pick(["none", "none", "0", "7", "100", str(d), str(2**40)])
         ops = []
         probes = []
         cur_us = us0
@@ -917,14 +1033,36 @@ def c14(run: Run):
             ops.append("d:" + y.hex())
             probes.append((len(ops) - 1, y, cur_us))
             ops.append("r")
-        hist = run.add("rawlzma lc=%d lp=%d pb=%d dict=%d us=%s ml=none ops=%s" % (lc, lp, pb, d, us0, ";".join(ops)),
+        hist = run.add("rawlzma lc=%d lp=%d pb=%d dict=%d us=%s ml=%s ops=%s" % (lc, lp, pb, d, us0, ml, ";".join(ops)),
                        oracle=lambda res, meta, peak: "panic in history" if "panic" in res else None, tag="c14:lzma:history")
         for idx, y, us in probes:
             # … must equal the state of a freshly constructed decoder (every table and register)
-            fresh = run.add("rawlzma lc=%d lp=%d pb=%d dict=%d us=%s ml=none ops=st;d:%s" % (lc, lp, pb, d, us, y.hex()),
+            fresh = run.add("rawlzma lc=%d lp=%d pb=%d dict=%d us=%s ml=%s ops=st;d:%s" % (lc, lp, pb, d, us, ml, y.hex()),
                             oracle=None, tag="c14:lzma:fresh", nontrivial=False)
             groups.append((hist, idx, fresh, 2))
             groups.append((hist, idx - 1, fresh, 1))
+    # "any number of reuse cycles": hundreds of resets between two uses of the same literal contexts (counters
+    # that wrap, lazily refreshed tables); A touches many contexts, B only a few
+    cyc = []
+    for (lc, lp, pb) in [(4, 1, 0), (8, 0, 2), (3, 2, 1), (3, 0, 2), (0, 4, 4), (8, 4, 0)][:sizes(run.tier, 4, 6)]:
+        cyc.append((lc, lp, pb))
+    reqs = []
+    for (lc, lp, pb) in cyc:
+        reqs.append(dict(kind="lzma", lc=lc, lp=lp, pb=pb, dict=4096, prog="X60.%d.200,M7.12,X20.%d.200,M3.11,E" % (rng.below(999), rng.below(999))))
+        reqs.append(dict(kind="lzma", lc=lc, lp=lp, pb=pb, dict=4096, prog="L0,L1,M1.10,E"))
+    cm = core.script(reqs)
+    for i, (lc, lp, pb) in enumerate(cyc):
+        A, B = cm[2 * i]["payload"], cm[2 * i + 1]["payload"]
+        k = [255, 256, 257, 512, 511, 65536][i] if run.tier == "thorough" or i < 4 else 256
+        if k > 1000 and lc + lp > 6:
+            k = 1024
+        ops = ["d:" + A.hex()] + ["r", "d:" + B.hex()] * (k - 1) + ["r", "st", "d:" + A.hex()]
+        hist = run.add("rawlzma lc=%d lp=%d pb=%d dict=4096 us=none ml=none ops=%s" % (lc, lp, pb, ";".join(ops)),
+                       oracle=lambda res, meta, peak: "panic in history" if "panic" in res else None, tag="c14:lzma:long-cycle", cycles=k)
+        fresh = run.add("rawlzma lc=%d lp=%d pb=%d dict=4096 us=none ml=none ops=st;d:%s" % (lc, lp, pb, A.hex()), oracle=None,
+                        tag="c14:lzma:fresh", nontrivial=False)
+        groups.append((hist, len(ops) - 1, fresh, 2))
+        groups.append((hist, len(ops) - 2, fresh, 1))
     lz2 = lzma2_material(run, 60, 300, 6, 30)
     for i in range(sizes(run.tier, 25, 300)):
         pool = []
@@ -1022,6 +1160,18 @@ def c17(run: Run):
             for name, data, always in muts:
                 if always:
                     run.add("lzma2 in=%s" % data.hex(), oracle=exp_err(), tag="c17:" + name.split("=")[0].rstrip("+-1"), mut=name)
+                    if rng.chance(1, 4) or name.startswith("props"):
+                        # … and whatever the decoder object has seen before (the same malformed stream, a valid one)
+                        def twice(res, meta, peak):
+                            toks = res.split(" ")
+                            if "panic" in res or v(res) in ("hang", "abort", "missing"):
+                                return "panic/hang"
+                            bad = [i for i in meta["bad_at"] if len(toks) <= i or not (toks[i].startswith("err:") or toks[i] == "unspec")]
+                            return "malformed framing (%s) accepted by a reused raw decoder: %s" % (meta.get("mut"), res[:100]) if bad else None
+                        ops, bad_at = rng.pick(([] if name.startswith("props") else [(["d:" + data.hex(), "d:" + data.hex()], [1, 2])]) + [
+                                                (["d:" + pay.hex(), "d:" + data.hex(), "d:" + data.hex()], [2, 3]),
+                                                (["d:" + data.hex(), "r", "d:" + data.hex()], [1, 3])][:2 if name.startswith("props") else 3])
+                        run.add("rawlzma2 ops=%s" % ";".join(ops), oracle=twice, tag="c17:reused-decoder", mut=name, bad_at=bad_at)
                 else:
                     oracle, refv = reject_if_liblzma_rejects(data)
                     run.count("liblzma-on-size-mutation:" + refv)
